@@ -703,7 +703,10 @@ class BaseProxy(_BaseProxy_):
                 self._Client,
                 self._server,
             ),
-            # exitpriority=10,
+            exitpriority=10,
+            # With an exit priority, the finalizer also runs when the process exits
+            # while this proxy is still alive (e.g. it is held by `Process._args` in a
+            # child process); otherwise the reference it owns would never be released.
         )
 
     # Changes to the original version:
